@@ -109,6 +109,10 @@ func hexDecode(h string) ([]byte, error) {
 const cliDoc = "- root\n  - a.x\n  - d\n    - e.x\n  - f\n"
 const cliBadDoc = "- root\n  - a.x\n  -\n"
 
+// a good root block in front of the failing one: the library has printed the first tree when it meets the bad row
+// (simple mode: deterministic), so "stdout is what the library wrote" also covers partial output before a failure
+const cliBadDoc2 = "- first\n  - kept\n- root\n  - a.x\n  -\n"
+
 func (cr *cliReplayer) run(j *Job, raw map[string]string, aid string) *NativeResult {
 	m, err := concretize(j, raw)
 	if err != nil {
@@ -248,6 +252,9 @@ func (cr *cliReplayer) runConcrete(j *Job, m *ConcreteModel, aid string) *Native
 	doc := cliDoc
 	if libFails && sc.Cmd != "verify" {
 		doc = cliBadDoc
+		if sc.Cmd == "output" && !sc.Massive {
+			doc = cliBadDoc2
+		}
 	}
 	setup := func(dir string) error {
 		if err := os.MkdirAll(dir, 0o755); err != nil {
